@@ -39,6 +39,8 @@ TEXT = u'''Feature: F
       """
       a > b: <a>
       """
+      | k<b> | both |
+      | <a>  | <t>  |
 
     @ex1 @req/PAY-7 @c++
     Examples: First <a>
